@@ -38,14 +38,20 @@ func NewMask(group kyber.Group, publics []kyber.Point, myKey kyber.Point) (*Mask
 	m.mask = make([]byte, m.Len())
 
 	if myKey != nil {
+		found := false
 		for i, key := range publics {
 			if key.Equal(myKey) {
-				err := m.SetBit(i, true)
-				return m, err
+				if err := m.SetBit(i, true); err != nil {
+					return nil, err
+				}
+				found = true
+				break
 			}
 		}
 
-		return nil, errors.New("key not found")
+		if !found {
+			return nil, errors.New("key not found")
+		}
 	}
 
 	var err error
